@@ -4116,11 +4116,13 @@ def _parse_simple_lines(
                 and isinstance(expr_node.func, ast.Name)
                 and expr_node.func.id == "print"
             ):
+                _verif_note_ignored(scope, depth, line, "print")
                 i += 1
                 continue
             try:
                 expr_c = _to_c_expr(line, vars, ctx)
             except Exception:
+                _verif_note_ignored(scope, depth, line, "expr-translation-failed")
                 expr_c = None
             if expr_c is not None:
                 if (
@@ -4165,12 +4167,14 @@ def _parse_simple_lines(
                 else:
                     try:
                         _eval_const(line, vars)
+                        _verif_note_ignored(scope, depth, line, "constant-expression")
                     except Exception:
                         body.append(ExprStmt(expr=expr_c))
                 i += 1
                 continue
 
         # unknown → ignore
+        _verif_note_ignored(scope, depth, line, "unknown")
         i += 1
 
     return body
@@ -4397,3 +4401,16 @@ RE_LCD_BRIGHTNESS = re.compile(r"^\s*([A-Za-z_]\w*)\s*\.brightness\(\s*(.*)\s*\)
 RE_LCD_GLYPH = re.compile(r"^\s*([A-Za-z_]\w*)\s*\.glyph\(\s*(.*)\s*\)\s*$")
 RE_LCD_PROGRESS = re.compile(r"^\s*([A-Za-z_]\w*)\s*\.progress\(\s*(.*)\s*\)\s*$")
 RE_LCD_ANIMATE = re.compile(r"^\s*([A-Za-z_]\w*)\s*\.animate\(\s*(.*)\s*\)\s*$")
+
+
+# Verification hook (add-only): with REDUINO_VERIF=1 in the environment every line that
+# ``_parse_simple_lines`` skips without producing a node is recorded here as
+# ``(scope, depth, stripped line, reason)``.  Unset, nothing is recorded.
+_VERIF_IGNORED: List[Tuple[str, int, str, str]] = []
+
+
+def _verif_note_ignored(scope: str, depth: int, line: str, reason: str) -> None:
+    import os
+
+    if os.environ.get("REDUINO_VERIF") == "1":
+        _VERIF_IGNORED.append((scope, depth, line, reason))
